@@ -88,7 +88,9 @@ def harmless(name, file, old, new, checks):
     H.append(dict(name="HARMLESS_" + name, file=file, old=old, new=new, checks=checks.split(), harmless=True))
 
 
-harmless("le_as_not_greater", NU, "return np.less_equal(abs_diff, thresholds)", "return np.logical_not(np.greater(abs_diff, thresholds))", "C01 C10")
+# `<=` written as `not >` is equivalent on finite data (C01/C10 rightly stay quiet, recorded in harmless_rewrites.json) but lets NaN
+# compare equal: the empty last cell of a csv cut right behind a delimiter then passes, which C18 reports (seed C18-5)
+mut("le_as_not_greater_lets_nan_pass", NU, "return np.less_equal(abs_diff, thresholds)", "return np.logical_not(np.greater(abs_diff, thresholds))", "C18")
 harmless("stable_argsort", NU, "    return np.argsort(input_array)\n", "    return np.argsort(input_array, kind=\"stable\")\n", "C02 C08")
 harmless("strip_via_nonzero", TR, "    return sub_array(unconnected_filter_map, 0, first_unconnected_after_sort)", "    import numpy as _np\n    return _np.nonzero(_np.logical_not(is_unconnected))[0]", "C08 C02")
 harmless("report_order", FD, "        comparisons.extend(self._missing_source_comparisons(query))\n        comparisons.extend(self._missing_reference_comparisons(query))",
